@@ -595,29 +595,87 @@ fn with_chain<B: BitmapSlice, R>(root: &VolatileSlice<'_, B>, origin: usize, t: 
     rec(root, origin, 0, depth, t, cx, f)
 }
 
-fn maybe_reset(tracks: &[Track], t: &mut Tape, cx: &mut Cx) {
+/// `must[i][p]`: page p of track i was written since it was last reset - it has to be dirty.
+fn maybe_reset(tracks: &[Track], must: &mut [Vec<bool>], t: &mut Tape, cx: &mut Cx) {
     if t.chance(1, 5) {
-        let tr = &tracks[t.idx(tracks.len())];
+        let ti = t.idx(tracks.len());
+        let tr = &tracks[ti];
         match t.below(3) {
-            0 => tr.bm.reset(),
-            1 => {
-                let _ = tr.bm.get_and_reset();
+            0 => {
+                tr.bm.reset();
+                must[ti].iter_mut().for_each(|b| *b = false);
+                note!(cx, "reset()");
             }
-            _ => tr.bm.reset_addr_range(t.idx(tr.size + tr.base + 1), 1 + t.idx(tr.size + 1)),
+            1 => {
+                // the harvest is the report: it names every page written since the last reset
+                let words = tr.bm.get_and_reset();
+                for (p, m) in must[ti].iter().enumerate() {
+                    if *m && !(words.get(p / 64).map(|w| w >> (p % 64) & 1 == 1).unwrap_or(false)) {
+                        cx.pending_failure = Some(format!("get_and_reset() does not report page {} of region {} (page size {}), which was written since the last reset", p, ti, tr.page));
+                    }
+                }
+                must[ti].iter_mut().for_each(|b| *b = false);
+                note!(cx, "get_and_reset()");
+            }
+            _ => {
+                // whole pages, a range ending exactly at a page end, or anything
+                let (s, l) = match t.below(3) {
+                    0 => {
+                        let p = t.idx(tr.bm.len() + 1);
+                        (p * tr.page, tr.page * (1 + t.idx(2)))
+                    }
+                    1 => {
+                        let s = t.idx(tr.size + tr.base + 1);
+                        (s, (tr.page - s % tr.page) + tr.page * t.idx(2))
+                    }
+                    _ => (t.idx(tr.size + tr.base + 1), 1 + t.idx(tr.size + 1)),
+                };
+                tr.bm.reset_addr_range(s, l);
+                for p in s / tr.page..=(s + l - 1) / tr.page {
+                    if let Some(b) = must[ti].get_mut(p) {
+                        *b = false;
+                    }
+                }
+                note!(cx, "reset_addr_range({}, {})", s, l);
+            }
         }
-        note!(cx, "reset");
         cx.nt("after_reset");
     }
+}
+
+/// Everything written since its page was last reset is still reported dirty.
+fn carry_marks(tracks: &[Track], before_b: &[Vec<u8>], must: &mut [Vec<bool>], what: &str) -> Result<(), String> {
+    for (ri, tr) in tracks.iter().enumerate() {
+        let after_b = tr.bytes();
+        let after_p = tr.pages();
+        for o in 0..tr.size {
+            if after_b[o] != before_b[ri][o] {
+                if let Some(b) = must[ri].get_mut(tr.page_of(o)) {
+                    *b = true;
+                }
+            }
+        }
+        for (p, m) in must[ri].iter().enumerate() {
+            if *m && !after_p.get(p).copied().unwrap_or(false) {
+                return Err(format!("{}: page {} of region {} (page size {}, bitmap base {}) was written earlier and not reset since, but it is reported clean now", what, p, ri, tr.page, tr.base));
+            }
+        }
+    }
+    Ok(())
 }
 
 /// `origin` = offset of the root slice inside the tracked region.
 fn drive_slice<B: BitmapSlice>(mode: Mode, root: &VolatileSlice<'_, B>, origin: usize, tracks: &[Track], t: &mut Tape, cx: &mut Cx) -> Result<(), String> {
     let nops = 1 + t.idx(12);
+    let mut must: Vec<Vec<bool>> = tracks.iter().map(|x| vec![false; x.pages().len()]).collect();
     for step in 0..nops {
         if t.exhausted() && step > 0 {
             break;
         }
-        maybe_reset(tracks, t, cx);
+        maybe_reset(tracks, &mut must, t, cx);
+        if let Some(e) = cx.pending_failure.take() {
+            return Err(e);
+        }
         let before_b: Vec<Vec<u8>> = tracks.iter().map(|x| x.bytes()).collect();
         let before_p: Vec<Vec<bool>> = tracks.iter().map(|x| x.pages()).collect();
         let mut desc_mark = 0usize;
@@ -627,6 +685,7 @@ fn drive_slice<B: BitmapSlice>(mode: Mode, root: &VolatileSlice<'_, B>, origin: 
         let rep = with_chain(root, origin, t, cx, &mut |s, co, t, cx| slice_op(s, &tracks[0], 0, co, t, cx))??;
         let what = if cx.verbose { cx.desc[desc_mark..].to_string() } else { format!("step {}", step) };
         judge(mode, tracks, &before_b, &before_p, &rep, &what)?;
+        carry_marks(tracks, &before_b, &mut must, &what)?;
     }
     Ok(())
 }
@@ -889,11 +948,15 @@ pub fn run_guest(mode: Mode, t: &mut Tape, cx: &mut Cx) -> Result<(), String> {
         .collect();
     let pts = lay.points();
     let nops = 1 + t.idx(12);
+    let mut must: Vec<Vec<bool>> = tracks.iter().map(|x| vec![false; x.pages().len()]).collect();
     for step in 0..nops {
         if t.exhausted() && step > 0 {
             break;
         }
-        maybe_reset(&tracks, t, cx);
+        maybe_reset(&tracks, &mut must, t, cx);
+        if let Some(e) = cx.pending_failure.take() {
+            return Err(e);
+        }
         let before_b: Vec<Vec<u8>> = tracks.iter().map(|x| x.bytes()).collect();
         let before_p: Vec<Vec<bool>> = tracks.iter().map(|x| x.pages()).collect();
         let a = t.addr_near(&pts);
@@ -1041,6 +1104,7 @@ pub fn run_guest(mode: Mode, t: &mut Tape, cx: &mut Cx) -> Result<(), String> {
             rep.is_write = false;
         }
         judge(mode, &tracks, &before_b, &before_p, &rep, &what)?;
+        carry_marks(&tracks, &before_b, &mut must, &what)?;
     }
     Ok(())
 }
